@@ -88,3 +88,9 @@ install(globals(), 'C02', view, oracle,
                    'correspondence; float interval lengths are compared up to 1e-9 of a tick.',
         technique='Lean 4 invariant proof over the scheduler loop + event-trace correspondence',
         required=['timestep_is_interval', 'timestep_requested_or_remainder', 'drained_after_update', 'noPending_after_runFor'])
+
+
+# processes that enter (and leave) at run time
+from harness import dynfamily as _dyn             # noqa: E402
+from harness.mixins import add_family as _add_family   # noqa: E402
+_add_family(globals(), _dyn, 'dyn', _dyn.oracle_intervals, share=0.1)
